@@ -393,9 +393,7 @@ func (fr *Frame) exec(blk, prev, stop *ssa.BasicBlock, phisDone bool) execResult
 			if it.steps > it.Cfg.MaxSteps {
 				it.abortf("step budget exceeded in %s", fr.fn)
 			}
-			if it.steps&1023 == 0 {
-				checkDeadline()
-			}
+			tick()
 			switch x := in.(type) {
 			case *ssa.Phi:
 				continue
@@ -602,7 +600,7 @@ func (fr *Frame) join(blk *ssa.BasicBlock, x *ssa.If, cond Value, stop *ssa.Basi
 		it.abortf("loop in %s whose exit test is data-dependent (%s)", fr.fn, show(cond))
 	}
 	it.joining[blk]++
-	checkDeadline()
+	tick()
 	J := it.cfg(fr.fn).ipdom[blk]
 	a := fr.runArm(blk.Succs[0], blk, J)
 	b := fr.runArm(blk.Succs[1], blk, J)
@@ -1261,12 +1259,21 @@ var Deadline time.Time
 var ticks int
 
 // tick is called from the algebra's inner operations; every 256th call looks at the clock.
-func tick() {
-	ticks++
-	if ticks&255 == 0 {
-		checkDeadline()
+func tick() { tickN(1) }
+
+// tickN charges n units of work.
+func tickN(n int) {
+	ticks += n
+	if ticks > TickLimit {
+		panic(&abort{"analysis work budget exceeded (the code does something the abstract domains cannot follow in bounded work, e.g. a data-dependent loop over field arithmetic)"})
 	}
 }
+
+// TickLimit bounds the number of elementary algebra operations of one process (deterministic, independent of machine load).
+var TickLimit = 150_000_000
+
+// Ticks reports the work done so far.
+func Ticks() int { return ticks }
 
 func checkDeadline() {
 	if !Deadline.IsZero() && time.Now().After(Deadline) {
